@@ -382,6 +382,12 @@ static void pv (sb_t * o, svalue_t * sv, int depth)
                 }
               cnt++;
             }
+        /* sizeof(m) is m->count: it must be the number of entries the table holds */
+        if ((int) m->count != cnt)
+          {
+            fprintf (stderr, "VL lookup-miss sizeof=%d entries=%d\n", (int) m->count, cnt);
+            fflush (stderr);
+          }
         qsort (items, cnt, sizeof (sb_t), cmp_sb);
         sb_puts (o, "m{");
         for (int i = 0; i < cnt; i++)
